@@ -8,6 +8,7 @@
 #include "common/mc.hpp"
 #include "common/xgen.hpp"
 #include "common/asmgen.hpp"
+#include "common/xtok.hpp"
 #include "adapters/tools.hpp"
 
 using namespace mc;
@@ -66,6 +67,19 @@ int main(int argc, char **argv) {
     srcs.push_back({"unusual", s, false});
   for (const char *s : {"BR foo\n", "LDAC 0\nb\nLDAC b\n", "a\na\nBR a\n", "PROC p\nFUNC p\nBR p\n", "LDAC 99999999999\n", "DATA -1\nDATA 4294967295\n", "BR La\nLa\nLDAC 0\nDATA 5\n", "LDAP x\nLDAC 0\nLDAC 0\nx\nDATA 1\nLDAM x\n", "", "# c\n", "OPR LDAC\n"})
     srcs.push_back({"unusual-asm", s, true});
+  // every single-token edit (delete, duplicate, swap, replace by every token / identifier of the program / hostile literal) of the semantic seed program
+  // and of a few corpus programs: this is where accepted-but-unusual sources come from (assignment to a val, a call through the wrong kind of name, ...)
+  {
+    const std::vector<std::string> TOK = {"x", "7", "[", "]", "(", ")", "if", "then", "else", "while", "do", ":=", "skip", "{", "}", ";", ",", "var", "array", "proc", "func", "is", "stop", "~", "val",
+                                          "\"s\"", "true", "false", "return", "+", "-", "or", "and", "=", "~=", "<", "<=", ">", ">="};
+    std::vector<std::string> seedTexts = {semanticSeed()};
+    { xgen::Corpus C; C.build(false); for (uint64_t i = 0; i < C.total; i += C.total / (th ? 12 : 3) + 1) { std::string sh, fam; seedTexts.push_back(C.make(i, &sh, &fam)); } }
+    for (auto &text : seedTexts) {
+      auto toks = tokenizeX(text); if (toks.empty()) continue;
+      robust::Edits E(toks, editReplacements(toks, TOK), " ");
+      for (uint64_t i = 0; i < E.total(); i++) srcs.push_back({"edit", E.make(i), false});
+    }
+  }
   size_t big = 0; for (auto &s : srcs) if (s.text.size() > 20000) big++;
   // ---- configurations
   struct Cfg { unsigned char fill; size_t shift; unsigned char stack; int pred; };
@@ -94,8 +108,11 @@ int main(int argc, char **argv) {
       if (ctx.expired()) { st.add("sources_skipped_deadline"); continue; }
       const Src &s = srcs[i]; bool huge = s.text.size() > 20000;
       Result base; bool have = false;
+      size_t cfgIndex = 0;
       for (auto &cf : cfgs) {
+        cfgIndex++;
         if (huge && (cf.shift == 4096 || (cf.pred >= 0 && !th))) continue;
+        if (s.name == "edit" && !th && !(cfgIndex == 1 || cf.fill == 0xA5 || (cf.fill == 0xFF && cf.shift == 16 && cf.stack == 0xFF))) continue;
         robust::g_fill = cf.fill; robust::g_shift = cf.shift; robust::g_fill_on = true; robust::dirtyStack(cf.stack);
         if (cf.pred >= 0 && (size_t)cf.pred != i) (void)produce(srcs[cf.pred], out);
         Result r = produce(s, out);
@@ -115,7 +132,7 @@ int main(int argc, char **argv) {
       if (i % 97 == 0) st.sample(Obj().kv("tool", s.isAsm ? "hexasm" : "xcmp").kv("source_name", s.name).kv("source", s.text.substr(0, 200)).kv("configurations", (uint64_t)cfgs.size()).str(), 5);
     }
   };
-  auto r = run_chunks(ctx, "c11", srcs.size(), srcs.size(), body, [&](uint64_t i) { return Obj().kv("tool", srcs[i].isAsm ? "hexasm" : "xcmp").kv("source_name", srcs[i].name).kv("source", srcs[i].text.substr(0, 4000)).str(); }, 300, (size_t)24 << 30);
+  auto r = run_chunks(ctx, "c11", srcs.size(), std::min<uint64_t>(srcs.size(), 2048), body, [&](uint64_t i) { return Obj().kv("tool", srcs[i].isAsm ? "hexasm" : "xcmp").kv("source_name", srcs[i].name).kv("source", srcs[i].text.substr(0, 4000)).str(); }, 300, (size_t)24 << 30);
   rep.st.merge(r.stats);
   if (!r.complete || rep.st.c["sources_skipped_deadline"]) rep.caps.push_back("in-process: deadline");
   // ---- process level
